@@ -131,6 +131,11 @@ def main(tier):
     run.add(InitDumpTask('C15'))
     from props.C15_json import FromJsonTask, ToJsonTask
     run.add(FromJsonTask(), ToJsonTask())
+    # "the parsed message encodes to the same bytes as the original": equal messages give equal bytes only if the encode
+    # function is chosen by the message's own PGN and id, whatever the encoder encoded before (contract of
+    # _call_encode_function, encoder state arbitrary; also part of C08 / C09)
+    from contracts.encoder_c import CallEncodeTask
+    run.add(CallEncodeTask('C15'))
     defs = [x for x in db().defs if db().selectable(x)]
     for ch in chunks(defs, 16):
         run.add(JsonCorpusTask(ch))
